@@ -326,3 +326,57 @@ def nodes_from_snapshot(root, snap):
         ino = inos.setdefault(e["ino"], len(inos) + 1)
         nodes.append((p, ino, e["kind"], e["mode"], e["uid"], e["gid"], e["mtime_ns"], e["nlink"], e.get("data") or b""))
     return nodes, inos
+
+
+# ----------------------------------------------------------------------------- walk mode
+LOOKING_RE = re.compile(r"Looking at (.*)…")
+
+
+def visiting_order(out):
+    """Paths in the order the walk looked at them (from the -v log)."""
+    return [m.group(1) for m in LOOKING_RE.finditer(out)]
+
+
+def nodes_with_dirs(root, snap):
+    nodes = []
+    inos = {}
+    for rel, e in sorted(snap.items()):
+        p = (root if rel == "." else os.path.join(root, rel)).encode()
+        ino = inos.setdefault(e["ino"], len(inos) + 1)
+        data = e.get("data") or b""
+        nodes.append((p, ino, e["kind"], e["mode"], e["uid"], e["gid"], e["mtime_ns"] or 0, e["nlink"], data if e["kind"] == "R" else b""))
+    return nodes, inos
+
+
+def model_walk_run(ctx, cases):
+    """cases: {id, nodes, handlers [names], epoch, check, entries [bytes]} -> id -> {stats, obs}"""
+    cf = os.path.join(ctx.tmp, "walk-cases.txt")
+    with open(cf, "w") as f:
+        for c in cases:
+            f.write("FS %s\n" % c["id"])
+            for (p, ino, kind, mode, uid, gid, mt, nl, data) in c["nodes"]:
+                f.write("N %s %d %s %d %d %d %d %d %s\n" % (p.hex(), ino, kind, mode, uid, gid, mt, nl, data.hex() if data else "-"))
+            f.write("WALK %s %s %d %s %d %d %d %d %d %s\n" % (
+                ",".join(c["handlers"]) or "-", "-" if c["epoch"] is None else c["epoch"], 1 if c["check"] else 0, c.get("prof", "debug"),
+                c.get("umask", 0o22), c.get("uid", 0), c.get("gid", 0), 1 if c.get("can_chown", True) else 0, c.get("now", 0),
+                " ".join(e.hex() for e in c["entries"])))
+    rc, out = sh("ulimit -s unlimited 2>/dev/null; exec %s %s debug fs" % (model_bin(), cf), timeout=900)
+    res = {}
+    for l in out.split("\n"):
+        t = l.split(" ", 2)
+        if len(t) < 2:
+            continue
+        cid, tag = t[0], t[1]
+        rest = t[2] if len(t) > 2 else ""
+        d = res.setdefault(cid, {"obs": {}})
+        if tag == "STATS":
+            k = ("directories", "files", "processed", "replaced", "rewritten", "unsupported", "errors")
+            d["stats"] = dict(zip(k, map(int, rest.split())))
+        elif tag == "PANIC":
+            d["panic"] = True
+        elif tag == "OBS":
+            ph, _, o = rest.partition(" ")
+            d["obs"][bytes.fromhex(ph)] = parse_obs(o)
+    if rc != 0:
+        ctx.notes.append("model_run (walk mode) exited %d: %s" % (rc, out[-300:]))
+    return res
